@@ -12,7 +12,7 @@
 (***************************************************************************)
 EXTENDS Integers, Sequences, FiniteSets, TLC
 
-CONSTANTS Keys, Vals, NoVal, Untouched, PrefixOf(_), Prefixes, MaxVersion, MaxDepth, EnableCopy
+CONSTANTS Keys, Vals, NoVal, Untouched, PrefixOf(_), Prefixes, MaxVersion, MaxDepth, EnableCopy, EnableRollback
 
 VARIABLES vers, stack, cp, last
 vars == <<vers, stack, cp, last>>
@@ -53,6 +53,12 @@ Discard    == Top > 1 /\ stack' = SubSeq(stack, 1, Top - 1) /\ UNCHANGED <<vers,
 Commit     == Top = 1 /\ Len(vers) < MaxVersion /\ vers' = Append(vers, View) /\ stack' = <<Empty>> /\ UNCHANGED cp /\ last' = [op |-> "commit"]
 ReadAt(v, k)    == v \in 1..Len(vers) /\ UNCHANGED <<vers, stack, cp>> /\ last' = [op |-> "getAt", ver |-> v, k |-> k, res |-> vers[v][k]]
 IterAt(v, p, r) == v \in 1..Len(vers) /\ UNCHANGED <<vers, stack, cp>> /\ last' = [op |-> "iterAt", ver |-> v, p |-> p, rev |-> r, res |-> IterIn(vers[v], p, r)]
+\* Store.Rollback(v): the versions above v are pruned, pending writes are dropped (a copy taken before is not used any more)
+Rollback(v) == /\ EnableRollback /\ Top = 1 /\ v \in 1..Len(vers)
+               /\ IF v = Len(vers) THEN UNCHANGED <<vers, stack>>            \* the current version: nothing happens, pending writes stay
+                  ELSE vers' = SubSeq(vers, 1, v) /\ stack' = <<Empty>>
+               /\ cp' = [cp EXCEPT !.on = FALSE]
+               /\ last' = [op |-> "rollback", ver |-> v]
 \* Store.Copy(): the committed map plus the store's own pending writes; from then on independent
 CopyMake   == EnableCopy /\ Top = 1 /\ cp' = [on |-> TRUE, base |-> Committed, ov |-> stack[1]] /\ UNCHANGED <<vers, stack>> /\ last' = [op |-> "copy"]
 CopySet(k, v) == cp.on /\ cp' = [cp EXCEPT !.ov[k] = v] /\ UNCHANGED <<vers, stack>> /\ last' = [op |-> "cpset", k |-> k, v |-> v]
@@ -64,12 +70,15 @@ Next == \/ \E k \in Keys, v \in Vals : Set(k, v) \/ CopySet(k, v)
         \/ \E k \in Keys : Delete(k) \/ Get(k) \/ CopyDel(k) \/ CopyGet(k)
         \/ \E p \in Prefixes, r \in BOOLEAN : Iter(p, r) \/ CopyIter(p, r)
         \/ Nest \/ Flush \/ Discard \/ Commit \/ CopyMake
+        \/ \E v \in 1..MaxVersion : Rollback(v)
         \/ \E v \in 1..MaxVersion, k \in Keys : ReadAt(v, k)
         \/ \E v \in 1..MaxVersion, p \in Prefixes, r \in BOOLEAN : IterAt(v, p, r)
 Spec == Init /\ [][Next]_vars
 
 \* design-level sanity of the reference semantics
-Immutable == [][\A i \in 1..Len(vers) : vers'[i] = vers[i]]_vars
+\* a committed version never changes while it exists (a rollback removes the versions above its target, nothing else)
+Immutable == [][\A i \in 1..Len(vers) : i <= Len(vers') => vers'[i] = vers[i]]_vars
+RollbackExact == last.op = "rollback" => Len(vers) = last.ver
 ReadYourWrites == last.op = "set" => View[last.k] = last.v
 DeletesHide == last.op = "delete" => View[last.k] = NoVal
 IterSorted == (last.op \in {"iter", "iterAt", "cpiter"}) =>
